@@ -75,7 +75,7 @@ class TrackBase {
 static const size_t kSizes[12] = {0, 1, 7, 8, 9, 16, 56, 63, 64, 65, 128, 200};
 static size_t al8(size_t x) { return (x + 7) & ~(size_t)7; }
 
-enum Cfg { DEFAULT_BASE = 0, OWN_BASE = 1, USERBUF_EXACT = 2, USERBUF_8 = 3, USERBUF_64 = 4, USERBUF_MISALIGNED = 5, USERBUF_NOBASE = 6 };
+enum Cfg { DEFAULT_BASE = 0, OWN_BASE = 1, USERBUF_EXACT = 2, USERBUF_8 = 3, USERBUF_64 = 4, USERBUF_MISALIGNED = 5, USERBUF_NOBASE = 6, USERBUF_ODD69 = 7, CHUNK_ODD100 = 8 };
 
 template <class Policy, int CFG>
 struct AllocSim {
@@ -116,6 +116,8 @@ struct AllocSim {
       case USERBUF_64: ub_begin = userbuf; ub_len = hdr + 64; h[0] = new Pool(ub_begin, ub_len, kChunk, &base); break;
       case USERBUF_MISALIGNED: ub_begin = userbuf + 3; ub_len = hdr + 64 + 5; h[0] = new Pool(ub_begin, ub_len, kChunk, &base); break;
       case USERBUF_NOBASE: ub_begin = userbuf; ub_len = hdr + 16; h[0] = new Pool(ub_begin, ub_len, kChunk); break;
+      case USERBUF_ODD69: ub_begin = userbuf; ub_len = hdr + 69; h[0] = new Pool(ub_begin, ub_len, kChunk, &base); break;  // capacity not a multiple of 8
+      case CHUNK_ODD100: h[0] = new Pool(100, &base); break;                                                                  // chunk size not a multiple of 8
     }
     hstate[0] = 1;
   }
@@ -499,6 +501,8 @@ int main(int argc, char** argv) {
   explore<AllocSim<AdaptiveChunkPolicy, USERBUF_64>>(R, "A_adaptive_userbuf64", d_side, extra, states, trans, args, rrc);
   explore<AllocSim<SimpleChunkPolicy, USERBUF_MISALIGNED>>(R, "A_simple_userbuf_misaligned", d_side, extra, states, trans, args, rrc);
   explore<AllocSim<SimpleChunkPolicy, USERBUF_NOBASE>>(R, "A_simple_userbuf_nobase", d_side, extra, states, trans, args, rrc);
+  explore<AllocSim<SimpleChunkPolicy, USERBUF_ODD69>>(R, "A_simple_userbuf_odd69", d_side, extra, states, trans, args, rrc);
+  explore<AllocSim<AdaptiveChunkPolicy, CHUNK_ODD100>>(R, "A_adaptive_chunk100", d_side, extra, states, trans, args, rrc);
   if (args.replay) return rrc < 0 ? 2 : rrc;
   std::string ej = "\"states\": " + std::to_string(states) + ", \"transitions\": " + std::to_string(trans) + ", \"explorers\": {" + extra + "}";
   return R.finish(ej);
